@@ -324,6 +324,8 @@ def build(chk):
     build2d(chk)
     from . import C15
     chk.include(C15, r"^bc/(insub|insup|outsub|outsup|sym)/one-dimensional/", "uses:C15")
+    from . import C20
+    chk.include(C20, r".", "uses:C20")          # the mesh contract
     # the flux consistency clause the zero-residual argument instantiates (every registered flux, C02)
     from . import C02
     chk.include(C02, r"/consistency$", "uses:C02")
